@@ -120,7 +120,7 @@ struct GenProfile {
 	bool neutral = false;        // C19 profile: only feature-neutral operations
 	bool ignore_log = false;     // generate as if the build had no logging (cross-build comparison for C16)
 	std::string use;             // with `neutral`: the features (P, S, H) the generated program nevertheless uses
-	int max_ops = 24;
+	int max_ops = 120;
 };
 Case generate_case(Rng& rng, const SutInfo& info, const GenProfile& prof);
 
